@@ -7,6 +7,7 @@ import (
 	"strings"
 
 	"github.com/makiuchi-d/gozxing"
+	"github.com/makiuchi-d/gozxing/common"
 	dmdec "github.com/makiuchi-d/gozxing/datamatrix/decoder"
 	dmenc "github.com/makiuchi-d/gozxing/datamatrix/encoder"
 	"github.com/makiuchi-d/gozxing/datamatrix"
@@ -107,7 +108,19 @@ func (s *symbol05) decode(m [][]bool) (d decoded) {
 		if sharedDec != nil {
 			qd = sharedDec.qr
 		}
-		res, err := qd.Decode(bm, nil)
+		// every public entry point of the decoder, chosen by the matrix itself
+		var res *common.DecoderResult
+		var err error
+		switch entrySel(m) {
+		case 0:
+			res, err = qd.Decode(bm, nil)
+		case 1:
+			res, err = qd.DecodeBoolMap(m, nil)
+		case 2:
+			res, err = qd.DecodeWithoutHint(bm)
+		default:
+			res, err = qd.DecodeBoolMapWithoutHint(m)
+		}
 		if err != nil {
 			d.err = err
 			return
@@ -122,7 +135,13 @@ func (s *symbol05) decode(m [][]bool) (d decoded) {
 	if sharedDec != nil {
 		dd = sharedDec.dm
 	}
-	res, err := dd.Decode(bm)
+	var res *common.DecoderResult
+	var err error
+	if entrySel(m)%2 == 0 {
+		res, err = dd.Decode(bm)
+	} else {
+		res, err = dd.DecodeBoolMap(m)
+	}
 	if err != nil {
 		d.err = err
 		return
@@ -132,6 +151,20 @@ func (s *symbol05) decode(m [][]bool) (d decoded) {
 		return
 	}
 	return decoded{text: res.GetText(), raw: res.GetRawBytes(), ec: res.GetECLevel()}
+}
+
+// entrySel picks one of the decoder's public entry points from the matrix
+// content (a pure function of what is decoded, so replay needs nothing more).
+func entrySel(m [][]bool) int {
+	n := 0
+	for _, row := range m {
+		for _, v := range row {
+			if v {
+				n++
+			}
+		}
+	}
+	return n % 4
 }
 
 func isChecksum(err error) bool {
